@@ -555,7 +555,11 @@ class BaseProject(object, metaclass=ABCMeta):
             if task.target_component is not None:
                 # 3-1. Set target component of workplace if target component is ready
                 component = task.target_component
-                if component.is_ready():
+                # a component whose task has already been given resources in this step must stay where it is
+                if component.is_ready() and not any(
+                    len(t.allocated_worker_list) > 0
+                    for t in component.targeted_task_list
+                ):
                     candidate_workplace_list = task.allocated_workplace_list
                     candidate_workplace_list = sort_workplace_list(
                         candidate_workplace_list,
